@@ -155,7 +155,35 @@ def long_inputs(check, tier):
             s.fail("C19.eq.long", dict(f=la, g=lb), "== disagrees with the terminal strings")
     s.done()
 
+def repr_all_dicts(check, tier):
+    """repr over the COMPLETE space of attribute dicts (every style absent / False / True, every colour of both planes or none): the
+    expression evaluates in the fmtfuncs namespace to one run with the same text and the same displayed formatting"""
+    import contracts.render as R
+    from curtsies import fmtfuncs
+    ns = {k: getattr(fmtfuncs, k) for k in dir(fmtfuncs) if not k.startswith("_")}
+    full = tier == "thorough"
+    s = Suite(check, "C19.repr_all_dicts", f"eval(repr(FmtStr(Chunk(text, d)))) for every attribute dict d of the split ({59049 if full else 6561}) and the "
+              "texts 'tx' / \"q'\\\\n\": same characters, same displayed formatting (an attribute that is False displays like an absent one)",
+              bound="one run per dict")
+    shown = lambda at: tuple(sorted((k, v) for k, v in at if v))
+    for i, d in enumerate(R.all_dicts(full)):
+        t = "tx" if i % 3 else "q'\\\n"
+        f = FmtStr(Chunk(t, dict(d)))
+        s.case(i, sample=dict(text=t, atts=d) if i < 2 else None)
+        try:
+            r = eval(repr(f), dict(ns))
+            r = FmtStr(Chunk(r)) if isinstance(r, str) else r
+            got = [(c, shown(a)) for c, a in cells(r)]
+            want = [(c, shown(a)) for c, a in cells(f)]
+            if got != want:
+                s.fail("C19.repr", dict(runs=str(f.chunks), repr=repr(f), escape_in_formatted_run=False), f"evaluates to {r.chunks}")
+        except Exception as e:      # noqa: BLE001
+            s.fail("C19.repr", dict(runs=str(f.chunks), repr=repr(f), escape_in_formatted_run=False), f"does not evaluate: {type(e).__name__}: {e}")
+    s.done()
+
+
 def run(check, tier, seed):
+    repr_all_dicts(check, tier)
     long_inputs(check, tier)
     for c in CONTRACTS:
         verify(c, tier, check)
